@@ -142,8 +142,26 @@ Example ex_file_route :
              (codes "'0.5'") []
   = Done [(codes "pixel size", VS (SFloat (FFin 4)))] [] /\
   key_exists table feats (codes "imaging") (lower (strip (codes "Pixel Size ")))
-  = true /\ file_text (codes "'0.5'") = codes "0.5".
+  = true /\ file_text (codes " '0.5'") = codes "0.5".
 Proof. vm_compute. repeat split; reflexivity. Qed.
+
+(* a value that contains "=", ":", "[" and a "#" comment after it *)
+Example ex_line_route_equals_in_value :
+  line_route table feats (codes "pipeline")
+             (codes "dcnum segmenter = thresh:t=-6:cle=1^f=[1]  # note") []
+  = Done [(codes "dcnum segmenter",
+           VS (SStr (codes "thresh:t=-6:cle=1^f=[1]")))] [] /\
+  split_first 61 (codes "dcnum segmenter = thresh:t=-6:cle=1^f=[1]")
+  = Some (codes "dcnum segmenter ", codes " thresh:t=-6:cle=1^f=[1]").
+Proof. vm_compute. split; reflexivity. Qed.
+
+(* save + load of such a value *)
+Example ex_save_load :
+  save_load_route table feats (codes "experiment") (codes "Sample")
+                  (VS (SStr (codes "dilution c=0.5 mg/mL, [a]: 'x'")))
+  = inl (Done [(codes "sample",
+                VS (SStr (codes "dilution c=0.5 mg/mL, [a]: 'x")))] []).
+Proof. vm_compute. reflexivity. Qed.
 
 (* scale to filter = True survives the file (np.bool_ used to be refused) *)
 Example ex_h5_route_bool :
